@@ -5,6 +5,7 @@ package main
 var props = map[string]propCfg{
 	"C12": {
 		Modules: []string{"pkg/slice"},
+		Bounded: []func(*run){boundedExternals("TestAppend", "TestSortFunc")},
 		Decided: []string{
 			"strong frame on every function of package slice: no cell of any backing array that existed before the call is written, for all lengths, offsets, capacities and aliasing of the arguments",
 			"write discipline: every store (in-place append, sort) goes into an array allocated by the running call itself",
@@ -13,10 +14,12 @@ var props = map[string]propCfg{
 	},
 	"C13": {
 		Modules: []string{"pkg/slice"},
+		Bounded: []func(*run){boundedExternals("TestAppend", "TestSortFunc")},
 		Decided: []string{"functional postcondition of every function of package slice over the abstract view (len, element at i), inside its documented domain, for all lengths, all element types and all total callbacks; left-to-right callback order via ghost call traces"},
 	},
 	"C14": {
 		Modules: []string{"pkg/dict", "pkg/strings", "pkg/buf", "pkg/frt"},
+		Bounded: []func(*run){boundedExternals("TestStrings", "TestFmtFragment", "TestReflect", "TestBufferAndMap")},
 		Decided: []string{
 			"dict: finite-map contracts (Add overwrites one key and nothing else, TryFind/ContainsKey/Item read the map, Keys/Values/KVs enumerate each entry exactly once, ToDict keeps the last value per key; every other map unchanged)",
 			"strings: each wrapper equals the SMT-string definition of its Go counterpart with the pipeline argument order; Concat = join",
@@ -30,29 +33,32 @@ var props = map[string]propCfg{
 			"reflexivity, symmetry and transitivity are properties of the specification function struct_eq (axioms of the spec), carried over to OpEqual by result == struct_eq",
 		},
 		NotDecided: []string{"that go-cmp itself satisfies the assumed contract: validated only by the bounded differential run of the thorough tier (labelled bounded)"},
-		Bounded:    []func(*run){boundedOpEqual},
+		Bounded:    []func(*run){boundedOpEqual, boundedExternals("TestReflect")},
 		Scans:      []func(*run){scanBinOpTable},
 	},
 	"C16": {
 		Modules: []string{"fc", "pkg/sys"},
+		Bounded: []func(*run){boundedExternals("TestFiles", "TestStrings")},
 		Decided: []string{
 			"every scanner / tokenizer loop of wrapper.go terminates (variant) and makes progress on every byte string; token extents stay inside the buffer",
 			"output discipline of transpileOne: a normal return for X.fo means gen_X.go holds the complete emitted text; any abnormal termination (panic, or the deferred OnParseError diagnostic + exit 1) leaves the file system untouched; a .foi argument writes nothing",
 			"closed-world scan: no function of fc or pkg/* other than transpileOne (through sys.WriteFile) writes, creates, renames or removes files",
 		},
-		Scans: []func(*run){scanFsWrites},
+		Scans:      []func(*run){scanFsWrites},
 		NotDecided: []string{"termination of the recursive-descent parser and of type inference (two known non-terminating inputs, DESIGN §6)"},
 	},
 	"C15": {
 		Modules: []string{"fc"},
+		Bounded: []func(*run){boundedExternals("TestStrings", "TestFmtFragment")},
 		Decided: []string{
 			"printer half: FTypeToGo and its helpers (funcTypeToGo, fSliceToGo, fTupleToGo, fpToGo, recordTypeToGo, fUnionToGo, tArgsToGo, fargs, freturn) equal the documented type mapping go_type (specs/types.spec) for every FType value",
 		},
-		NotDecided: []string{"parser half: that parseType and friends build the FType the documented grammar prescribes (precedence of [] over *, -> nesting only through parentheses) is NOT proved: a bounded enumeration (depth 2, 3 syntactic positions) stands in for it, labelled bounded", "forward-declaration placeholders (transTRecurse) and generic user types"},
+		NotDecided:   []string{"parser half: that parseType and friends build the FType the documented grammar prescribes (precedence of [] over *, -> nesting only through parentheses) is NOT proved: a bounded enumeration (depth 2, 3 syntactic positions) stands in for it, labelled bounded", "forward-declaration placeholders (transTRecurse) and generic user types"},
 		BoundedQuick: []func(*run){boundedC15Parser},
 	},
 	"C18": {
 		Modules: []string{"cmd/build_sample_md"},
+		Bounded: []func(*run){boundedExternals("TestStrings", "TestFiles", "TestBufferAndMap")},
 		Decided: []string{
 			"convOne returns exactly the documented section (title after the first blank or the file name, content verbatim in a code fence, link to gen_<base>.go) and panics exactly when the listed file cannot be read",
 			"processListFile writes header + sections joined by newline, one section per non-empty line in list order, to Join(Dir(list), dest); every other path is unchanged; any panic (unreadable list or listed file) leaves the file system untouched (no partial README)",
@@ -61,16 +67,18 @@ var props = map[string]propCfg{
 	},
 	"C07": {
 		Modules: []string{"fc", "pkg/sys"},
+		Bounded: []func(*run){boundedExternals("TestFiles", "TestStrings")},
 		Decided: []string{
 			"output naming: the file written for X.fo is Join(Dir(X.fo), \"gen_\" + base-without-.fo + \".go\"); a .foi argument writes nothing and the returned parse state is the one after parsing it (transpileOne)",
 			"per-let reset: psResetTmpCtx zeroes the temporary counter, replaces only the type-variable context and keeps every other component; parseRootLet uses its incoming state only as the argument of psResetTmpCtx (syntactic obligation)",
 			"root guard: parseRootOneStmt returns normally only if the root scope is the only scope",
 		},
 		NotDecided: []string{"the main clause - inserting, deleting or reordering unrelated top-level definitions, or splitting into files, leaves a definition's translation unchanged - is a non-interference property of the whole parser over scopes and the global info tables; it is NOT decided by these obligations", "known finding F8 (two record types with the same field names) is a counterexample to the main clause; it is listed under C05"},
-		Scans: []func(*run){scanRootLetUsesResetOnly},
+		Scans:      []func(*run){scanRootLetUsesResetOnly},
 	},
 	"C09": {
 		Modules: []string{"fc"},
+		Bounded: []func(*run){boundedExternals("TestBufferAndMap")},
 		Decided: []string{
 			"exaustiveCheck(ttype, arms): when ttype is a union, it panics (the diagnostic path) if and only if the union's info is missing or some case of the union is named by no arm - for unions of any size, any arm order, duplicate arms, arms naming unknown cases",
 			"routing (parseURules): a match returned without a default arm has been through exaustiveCheck with exactly its arms (so it covers every case); a default arm is accepted only when the next arm is inside the enclosing offside and is `| _`",
@@ -86,17 +94,18 @@ var props = map[string]propCfg{
 			"precedence climbing for chains of ANY length (parseBinAfter / parseExprWithPrec / parseExpr, ghost ranks + ghost flag wg): every node is built with rank(left) >= rank(op) and rank(right) > rank(op) - the published table with left association -, each call returns an expression of rank >= its minimum and stops before an operator of rank >= its minimum; recursion and the function-typed parameter are discharged modularly (the function's own contract is the induction hypothesis)",
 		},
 		NotDecided: []string{"that operands appear in source order without loss (needs a token-list ghost); application binds tighter / prefix not applies to the following application (parseTerm, parseAtomList are abstract operands of rank 100 here)"},
-		Scans: []func(*run){scanBinOpTable, scanBinOpCallSites, scanNotOperand},
+		Scans:      []func(*run){scanBinOpTable, scanBinOpCallSites, scanNotOperand},
 	},
 	"C05": {
 		Modules: []string{"fc"},
+		Bounded: []func(*run){boundedExternals("TestBufferAndMap")},
 		Decided: []string{
 			"closed-world scan: fc and pkg/* contain no goroutines, select, time, math/rand, environment reads, %p or unsafe, and every range over a map and every call of dict.Keys / Values / KVs is one of the listed consumer sites",
 			"each consumer of a dictionary enumeration has an order-free postcondition that determines its observable result: exaustiveCheck (accept/reject by the C09 iff), eqsUnion (exactly the union of the two key sets), eqsItems / rsRegisterNewEI (every member registered to the same info, nothing else changed), scLookupRecFacCur (the matching factory - under the carve-out of known finding F8)",
 			"the dict functions themselves: Keys / Values / KVs return each entry exactly once (order unspecified)",
 		},
 		NotDecided: []string{"piRegAll's registration through closures stored in dictionaries (its keys are distinct by construction; read, not proved)", "the text of the non-exhaustive-match diagnostic names an order-dependent case (outside the statement: output files and the accept/reject decision)"},
-		Scans: []func(*run){scanNondeterminism},
+		Scans:      []func(*run){scanNondeterminism},
 	},
 	"C06": {
 		Modules: []string{"fc"},
@@ -107,10 +116,11 @@ var props = map[string]propCfg{
 			"L4 closed set: Tokenizer.col is read only by psCurCol and tkzNext, offsideCol only by the offside primitives and the parse-state constructors (scan)",
 		},
 		NotDecided: []string{"the grammar-level clauses (if on one line or several, right-hand side on the same or the next line, a pipeline broken before |>, blank lines and comments between statements): they are placements of psSkipEOL in thirty parser functions and need a relational proof of the whole parser; NOT decided"},
-		Scans: []func(*run){scanColumnReaders},
+		Scans:      []func(*run){scanColumnReaders},
 	},
 	"C11": {
 		Modules: []string{"fc", "pkg/frt"},
+		Bounded: []func(*run){boundedExternals("TestGoLiteralSyntax", "TestFmtFragment", "TestReflect")},
 		Decided: []string{
 			"\"...\" literals: the token ends at the first unescaped quote (backslash parity) and its value is exactly the bytes between the quotes, so the emitted Go literal is byte-identical to the Folang literal and Go's reading of the escapes is the documented one",
 			"`...` literals: the token ends at the first backtick and every character of the body is re-escaped for a Go interpreted literal (backslash, quote and newline escaped, every other byte itself)",
@@ -121,6 +131,7 @@ var props = map[string]propCfg{
 	},
 	"C03": {
 		Modules: []string{"fc"},
+		Bounded: []func(*run){boundedExternals("TestStrings", "TestFmtFragment")},
 		Decided: []string{
 			"naming: unionCSName = U_C, csConstructorName = New_U_C, piFullName = pkg.name unless the package is _",
 			"union: interface U with marker U_Union() (udUnionDef), struct U_C with payload field Value (udCSDef), constructor = package var when the case has no payload and U no type parameter, a func otherwise (csIsVar, csConstruct, csConstructVar, csConstructFunc)",
